@@ -226,9 +226,24 @@ def _has_cap(op):
 
 # F20: file capabilities do not survive a transfer (chown after setxattr, and the later content write, both drop them).
 # Signature: the only C01 complaint is about xattrs of a created entry and a source file carries security.capability.
+def _ro_linked(op):
+    """a regular source file without owner write permission that another source entry is a hard link of"""
+    by = {e["p"]: e for e in op["src"]["tree"]}
+    return any(e.get("t") == "hardlink" and by.get(e.get("ln"), {}).get("t") == "file" and not by[e["ln"]].get("mode", 0o644) & 0o200
+               for e in op["src"]["tree"])
+
+
+def _f31(op, impl, model):
+    runs = impl.get("runs") if isinstance(impl, dict) else None
+    errs = [str(r.get("recverr", "")) for r in runs] if runs else [str(impl.get("recverr", ""))]
+    return bool(op.get("opt", {}).get("unpriv")) and _ro_linked(op) and any("permission denied" in e and "failed to open" in e for e in errs)
+
+
 SyncSuite.matchers = {
     "F20": lambda op, impl, model: _has_cap(op) and model.get("c01") is False and model.get("c01_why") == "xattrs of a created entry are missing"
     and impl.get("send") == "ok" and impl.get("recv") == "ok",
+    # F31: unprivileged receiver, read-only file with a hard link: lazy open (chmod + reopen) races with the link's metadata
+    "F31": _f31,
 }
 
 
@@ -627,8 +642,14 @@ class FollowSend(SendFilter):
                 q = b"/".join(cs)
             reqs.append(q)
         sf = {"follow": [hx(q) for q in reqs]}
-        if rng.random() < 0.25 and paths:
+        if rng.random() < 0.35 and paths:
             sf["include"] = [hx(rng.choice(paths))]
+            deep = [q for q in paths if b"/" in q]
+            if deep and rng.random() < 0.5:
+                # an ORDERED include list: a directory, then an exception carving an entry out of it (the order of the list the caller
+                # gave must survive whatever NewFilterFS does when it adds the follow targets)
+                q = rng.choice(deep)
+                sf["include"] = [hx(q.split(b"/")[0]), hx(b"!" + q)]
         return {"op": "sync", "src": {"kind": "mem" if rng.random() < 0.8 else "disk", "tree": tree}, "dst": [], "sfilter": sf,
                 "opt": {"notify": True, "cap": rng.choice([0, 4, 32]), "seed": rng.randrange(1 << 30)}}
 
@@ -636,7 +657,10 @@ class FollowSend(SendFilter):
         if isinstance(impl, dict) and "verif-timeout" in str(impl.get("err", "")):
             return Verdict(False, False, "C18: resolving the follow paths did not terminate: %s" % impl["err"])
         v = super().judge(op, impl, model)
-        if v.spec_ok is not False and model.get("follow") is False:
+        # (an exception in the caller's own include list may hide what a follow path leads to: the resolution clause is judged
+        # for lists without exceptions only; the view itself is compared with the model in every case)
+        neg = any(bytes.fromhex(p).strip().startswith(b"!") for p in op["sfilter"].get("include", []))
+        if v.spec_ok is not False and model.get("follow") is False and not neg:
             return Verdict(v.agree, False, "C18: %s; %s" % (model.get("follow_why"), v.note))
         return v
 
